@@ -40,6 +40,13 @@ def xsdata_code_objects():
             continue
         for obj in list(vars(mod).values()):
             _collect(obj, name, seen, 0)
+    # adopted: standard library code that runs on the library's behalf and keeps state on objects that callers of
+    # different modules share (typing memoises ForwardRef objects by annotation text)
+    import typing
+
+    for fn in (getattr(typing.ForwardRef, "_evaluate", None),):
+        if isinstance(fn, types.FunctionType):
+            _walk_code(fn.__code__, seen)
     return seen
 
 
